@@ -31,6 +31,8 @@ def tasks(tier, seed):
 def extra(led, tier, seed):
     from contracts import gemini_invariance, lean_bounds
     led.extend(gemini_invariance.bounded())
+    from contracts import dtype_native
+    led.extend(dtype_native.gemini_dtypes(seed))
     from contracts import gemini_registry
     led.extend(o for o in gemini_registry.frame_obligations() if ".compute_affinity" not in o.name)
     from contracts import gemini_large
